@@ -5,7 +5,7 @@ which document an evaluation scope is built from, how per-evaluation statuses fo
 records are sorted into the report's sets. Callees are modelled by symbolic results; value identity (the same
 opaque value reaching two places) is tracked by the executor.
 """
-import json, re
+import json, os, re
 import mirsmt, mirexec
 from mirsmt import Untranslatable, pc_term
 from miragg import calls, ret_ok_status
@@ -3287,6 +3287,96 @@ def variable_tables(a):
             a.candidates.append(c)
 
 
+def test_exit_code_domain(a):
+    """C08 / C06: commands::test::get_exit_code(acc, code) ends in unreachable!() for anything but the three test exit codes. Both
+    structured `test` handlers fold with it: along every path (<= 2 rules files, from the initial accumulator), both arguments of every
+    call are one of {success, test error, test failure} - given that get_exit_code and TestResult::get_exit_code return one of the three
+    (the Kani kernel k10 and the obligation test/structured/exit-code), and the value returned at the end is one of the three too"""
+    OK, ERR, FAILC = consts(a)
+    src = open(os.path.join(a.src, "guard", "src", "commands", "mod.rs")).read()
+    codes = {}
+    for nm in ("SUCCESS_STATUS_CODE", "TEST_ERROR_STATUS_CODE", "TEST_FAILURE_STATUS_CODE"):
+        m = re.search(r"const " + nm + r": i32 = (-?\d+);", src)
+        if not m:
+            raise Untranslatable(nm + " not found")
+        codes[nm] = int(m.group(1))
+    dom = sorted(set(codes.values()))
+    in_dom = lambda t: "(or " + " ".join(f"(= {t} {c})" for c in dom) + ")"
+
+    def m_gec(ex, av):
+        r = ex.fresh_int("i32", "code")
+        ex.side.append(in_dom(r[1]))
+        return r
+    models = {"get_exit_code": m_gec, "next": mirexec.m_iter_next, "into_iter": mirexec.m_new_iter, "get_rule_content": m_result_opq,
+              "rules_file": lambda ex, av: ex.fresh_result(ex.fresh_enum("Option", 2, "parsed", {"Some": ex.opq()}), "parse"),
+              "evaluate": m_result_opq, "is_empty": lambda ex, av: ("bool", ex.fresh("Bool", "emp")), "get_test_files": lambda ex, av: ex.opq(),
+              "to_writer": mirexec.m_result_unit, "to_writer_pretty": mirexec.m_result_unit, "serialize": mirexec.m_result_unit,
+              "from": lambda ex, av: ex.opq()}
+    for fn in ("handle_structured_directory_report", "handle_structured_single_report"):
+        ex = a.exec(r"(?:commands::test::)?" + fn, models, unroll=2, max_paths=400000, deepen=False)
+        a.fns.append("commands::test::" + fn)
+        bad, ncall = [], 0
+        for p in ex.paths:
+            for e in calls(p, "get_exit_code"):
+                if len(e[2]) != 2:
+                    continue
+                ncall += 1
+                for av in e[2]:
+                    if av[0] != "int":
+                        bad.append(pc_term(p.pc))
+                    elif not re.fullmatch(r"-?\d+", av[1]) or int(av[1]) not in dom:
+                        bad.append(f"(and {pc_term(p.pc)} (not {in_dom(av[1])}))")
+            r = p.ret
+            if p.outcome == "return" and r and r[0] == "enum" and r[1] == "Result" and r[3].get("Ok") is not None and r[3]["Ok"][0] == "int":
+                bad.append(f"(and {pc_term(p.pc)} (= {r[2]} 0) (not {in_dom(r[3]['Ok'][1])}))")
+        c = a.discharge(f"test/{fn}/exit-code-domain", ex, bad,
+                        f"{fn}, <= 2 rules files ({ncall} get_exit_code calls over all paths): every accumulator and every per-file code handed to "
+                        f"get_exit_code is one of {dom} (anything else reaches its unreachable!()), and so is the code returned")
+        if c:
+            c["replay"] = replay_test_directory_errors(a)
+            c["reproduced"] = c["replay"].get("reproduced", False)
+            a.candidates.append(c)
+
+
+def replay_test_directory_errors(a):
+    """`cfn-guard test -d <dir>` with rules files that cannot be read (invalid UTF-8) / do not parse / fail / pass, each with a tests
+    file, in every order of <= 3: never a crash; exit 0 iff all pass, non-zero otherwise; for structured outputs a report is written"""
+    import itertools, os, shutil, subprocess, tempfile
+    exe = a.cli()
+    if not exe:
+        return {"reproduced": False, "note": "native build failed"}
+    kinds = {"P": (b"rule r { a == 1 }\n", "PASS"), "F": (b"rule r { a == 1 }\n", "FAIL"), "B": (b"rule r { a == }\n", "PASS"),
+             "U": (b"rule r { a == 1 }\n# \xff\xfe\xfa bytes that are not UTF-8\n", "PASS")}
+    out, tried = [], 0
+    env = dict(os.environ)
+    env["RUST_BACKTRACE"] = "0"
+    for n in (1, 2, 3):
+        for seq in itertools.product("PFBU", repeat=n):
+            if n == 3 and not ("U" in seq or "B" in seq):
+                continue
+            d = tempfile.mkdtemp(prefix="cfnverif_replay_")
+            try:
+                os.makedirs(os.path.join(d, "tests"))
+                for i, k in enumerate(seq):
+                    body, exp = kinds[k]
+                    open(os.path.join(d, f"f{i}.guard"), "wb").write(body)
+                    open(os.path.join(d, "tests", f"f{i}_tests.yaml"), "w").write(
+                        f"- name: c\n  input:\n    a: 1\n  expectations:\n    rules:\n      r: {exp}\n")
+                for fmt in ("single-line-summary", "json", "junit"):
+                    pr = subprocess.run([exe, "test", "-d", d, "-o", fmt], capture_output=True, env=env, timeout=60)
+                    tried += 1
+                    rc = pr.returncode
+                    crashed = rc == 101 or b"panicked" in pr.stderr
+                    want_zero = set(seq) <= {"P"}
+                    if crashed or (rc == 0) != want_zero:
+                        out.append({"rules_files": list(seq), "format": fmt, "exit": rc, "expected": "0" if want_zero else "non-zero, no crash",
+                                    "stderr": pr.stderr.decode("utf-8", "replace")[-200:]})
+            finally:
+                shutil.rmtree(d, ignore_errors=True)
+    return {"reproduced": bool(out), "mismatches": out[:4], "runs": tried,
+            "legend": "P: passes, F: expectation not met, B: does not parse, U: not UTF-8 (cannot be read)"}
+
+
 def scope_delegations(a):
     """the one-line scope methods: a scope that has no state of its own for a question hands it, unchanged, to the scope / recorder that
     has - and touches nothing else (in particular no memo table is written from a record passing through)"""
@@ -3422,7 +3512,7 @@ def replay_multi_definition_reference(a):
 
 
 SITES = {
-    "C06": [structured_report, structured_parse_closure, junit_exit_code, junit_test_case, junit_report, validate_execute_step, test_generic_report, test_result_exit_code],
+    "C06": [structured_report, structured_parse_closure, junit_exit_code, junit_test_case, junit_report, validate_execute_step, test_generic_report, test_result_exit_code, test_exit_code_domain],
     "C12": [structured_report, junit_test_case, data_input_wiring, data_input_params_wiring, structured_merge_closure, test_get_by_result, test_structured_evaluate, report_combine_union],
     "C07": [flags_verdict_wiring, reporter_chain, library_entry_wiring, structured_report, junit_test_case, validate_execute_step,
             data_input_params_wiring, structured_merge_closure],
@@ -3433,5 +3523,5 @@ SITES = {
     "C04": [rule_status_semantics, root_scope_rule_table, scope_delegations],
     "C01": [rule_status_semantics, root_scope_rule_table, scope_discipline],
     "C17": [merge_map, merge_unwrap, param_files_fold_step, data_input_params_wiring, structured_merge_closure],
-    "C08": [merge_unwrap, rulegen_unwrap],
+    "C08": [merge_unwrap, rulegen_unwrap, test_exit_code_domain],
 }
